@@ -6,11 +6,12 @@ import sys
 
 def main():
     pid = sys.argv[1]
-    src = f'/tmp/out_{pid}'
+    rnd = int(sys.argv[2]) if len(sys.argv) > 2 else 1
+    src = f'/tmp/out_{pid}' if rnd == 1 else f'/tmp/out{rnd}_{pid}'
     for k in (1, 2):
         if not os.path.exists(f'{src}/patch{k}.diff'):
             continue
-        d = f'/verif/seeded/{pid}-{k}'
+        d = f'/verif/seeded/{pid}-{k + 2 * (rnd - 1)}'
         os.makedirs(d, exist_ok=True)
         shutil.copy(f'{src}/patch{k}.diff', f'{d}/patch.diff')
         shutil.copy(f'{src}/demo{k}.py', f'{d}/demo.py')
@@ -18,7 +19,8 @@ def main():
             shutil.copy(f'{src}/notes{k}.md', f'{d}/notes.md')
         meta_path = f'{d}/meta.json'
         meta = json.load(open(meta_path)) if os.path.exists(meta_path) else {}
-        meta.setdefault('id', f'{pid}-{k}')
+        meta.setdefault('id', os.path.basename(d))
+        meta.setdefault('round', rnd)
         meta.setdefault('property', pid)
         meta.setdefault('origin', 'independent sub-agent given only the property text, a private worktree and a neutral emulator driver')
         notes = open(f'{d}/notes.md').read() if os.path.exists(f'{d}/notes.md') else ''
